@@ -696,7 +696,7 @@ def main(argv_tier=None, replay_path=None):
             raise MachineryError("case %s rejected by %s: %s neglog2=%s nct=%s/%s" % (
                 tid, v["clause"], describe(*res[i]), res[i][0]["neglog2"], len(res[i][0]["ct1"]), len(res[i][0]["ct2"])))
     # a setup that raises on a valid database is C01's finding; here it only means that nothing could be observed
-    unobs = sorted(tid for tid, v in rej_a.items() if v["clause"] == "Observable")
+    unobs = sorted((tid for tid, v in rej_a.items() if v["clause"] == "Observable"), key=lambda t: int(t[1:]))
     for tid in unobs[:5]:
         print("UNOBSERVABLE property=%s %s: %s" % (PROP, describe(*res[int(tid[1:])]), res[int(tid[1:])][1]["err"]))
     for s in sc.SCHEMES:
